@@ -1,0 +1,115 @@
+//go:build verif
+
+package store
+
+import (
+	"context"
+	"fmt"
+	"os"
+	"path/filepath"
+	"time"
+
+	"github.com/opencontainers/go-digest"
+)
+
+// This file is only compiled with the "verif" build tag.
+// It exposes read-only views and synchronous triggers used by the external verification harness.
+// Nothing in here is referenced by the regular build.
+
+// VerifRepoGC runs one garbage collection of a single repository synchronously.
+func VerifRepoGC(s Store, repoStr string) error {
+	repo, err := s.RepoGet(context.Background(), repoStr)
+	if err != nil {
+		return err
+	}
+	repo.Done()
+	return verifUnwrapRepo(repo).gc()
+}
+
+// VerifStoreGC runs one store wide garbage collection pass with explicit tick times.
+func VerifStoreGC(s Store, cur, prev time.Time) error {
+	switch st := verifUnwrapStore(s).(type) {
+	case *dir:
+		return st.gc(cur, prev)
+	case *mem:
+		return st.gc(cur, prev)
+	}
+	return fmt.Errorf("unknown store type %T", s)
+}
+
+// VerifSetBlobTime changes the modification time tracked for a blob.
+func VerifSetBlobTime(s Store, repoStr string, d digest.Digest, t time.Time) error {
+	repo, err := s.RepoGet(context.Background(), repoStr)
+	if err != nil {
+		return err
+	}
+	defer repo.Done()
+	switch r := verifUnwrapRepo(repo).(type) {
+	case *dirRepo:
+		return os.Chtimes(filepath.Join(r.path, blobsDir, d.Algorithm().String(), d.Encoded()), t, t)
+	case *memRepo:
+		r.mu.Lock()
+		defer r.mu.Unlock()
+		if b, ok := r.blobs[d]; ok && b != nil {
+			b.m.mod = t
+			return nil
+		}
+		return fmt.Errorf("blob not found in memory: %s", d.String())
+	}
+	return fmt.Errorf("unknown repo type %T", repo)
+}
+
+// VerifSetRepoTime changes the last modification time tracked for a repository (used by the store wide GC pass).
+func VerifSetRepoTime(s Store, repoStr string, t time.Time) error {
+	repo, err := s.RepoGet(context.Background(), repoStr)
+	if err != nil {
+		return err
+	}
+	defer repo.Done()
+	switch r := verifUnwrapRepo(repo).(type) {
+	case *dirRepo:
+		r.mu.Lock()
+		r.timeMod = t
+		r.mu.Unlock()
+		return nil
+	case *memRepo:
+		r.mu.Lock()
+		r.timeMod = t
+		r.mu.Unlock()
+		return nil
+	}
+	return fmt.Errorf("unknown repo type %T", repo)
+}
+
+// VerifSessions lists the upload sessions of a repository without updating their last used time.
+func VerifSessions(s Store, repoStr string) ([]string, error) {
+	repo, err := s.RepoGet(context.Background(), repoStr)
+	if err != nil {
+		return nil, err
+	}
+	defer repo.Done()
+	switch r := verifUnwrapRepo(repo).(type) {
+	case *dirRepo:
+		return r.uploads.List()
+	case *memRepo:
+		return r.uploads.List()
+	}
+	return nil, fmt.Errorf("unknown repo type %T", repo)
+}
+
+// VerifRepos lists the repositories currently tracked by the store.
+func VerifRepos(s Store) ([]string, error) {
+	switch st := verifUnwrapStore(s).(type) {
+	case *dir:
+		return st.repos.List()
+	case *mem:
+		st.mu.Lock()
+		defer st.mu.Unlock()
+		names := make([]string, 0, len(st.repos))
+		for r := range st.repos {
+			names = append(names, r)
+		}
+		return names, nil
+	}
+	return nil, fmt.Errorf("unknown store type %T", s)
+}
